@@ -374,7 +374,7 @@ func checkC01(c CaseC01, x *hx.Ctx) *hx.Failure {
 var propC01 = hx.Register(hx.Prop[CaseC01]{ID: "C01", Gen: genC01, Check: checkC01})
 
 func c01Rule() {
-	hx.Rec("C01").SetRule("rapid cases: a 188-byte packet (random / all-zero / all-one / null / the two bundled test packets, header bytes boundary-biased) with a PID, TSC, CC, flag value, a bit to flip and a slice length; every getter of both accessor styles, every header setter (getter returns value AND all 1504 bits outside the field unchanged), the in-place and copy-returning counter helpers, Equal/Equals/CopyPackets, CheckErrors and FromBytes are checked on each. Enumerated: all 2^24 states of header bytes 1-3 for the getters and CheckErrors (x sync byte good/bad); every setter over all states of the byte(s) it touches x all in-range values (PID: 65536 states x a value set in quick, x all 8192 values in thorough); all 1504 single-bit flips for equality; all lengths 0..400 and the 256x256 (byte0, byte3) grid for FromBytes/CheckErrors. Non-trivial: a field's current value differs from the value set or a neighbouring header bit is 1.",
+	hx.Rec("C01").SetRule("rapid cases: a 188-byte packet (random / all-zero / all-one / null / the two bundled test packets / a well-formed packet whose payload may start like a PES packet with PTS, a PSI section or another packet; header bytes boundary-biased) with a PID, TSC, CC, flag value, a bit to flip and a slice length for FromBytes (neighbours of 188 and the sizes of other framings 192/196/204/208/376, the packet at offset 0/1/4/8/16 of the slice); every getter of both accessor styles, every header setter (getter returns value AND all 1504 bits outside the field unchanged), the in-place and copy-returning counter helpers, Equal/Equals/CopyPackets, CheckErrors and FromBytes are checked on each. Enumerated: all 2^24 states of header bytes 1-3 for the getters and CheckErrors (x sync byte good/bad); every setter over all states of the byte(s) it touches x all in-range values (PID: 65536 states x a value set in quick, x all 8192 values in thorough); all 1504 single-bit flips for equality; all lengths 0..400 and the 256x256 (byte0, byte3) grid for FromBytes/CheckErrors. Non-trivial: a field's current value differs from the value set or a neighbouring header bit is 1.",
 		"setter arguments are in range (the statement says so); SetAdaptationFieldControl is C02's business")
 }
 
